@@ -566,12 +566,13 @@ def c19_char_cfg_wiring(run):
             ids = {}
             arsenal = Bag(Integerizer=I.Native("Integerizer", lambda i2, a, k: I.Native("intern", lambda i3, a3, k3: ids.setdefault(a3[0], len(ids)))))
             terminals = [Bag(name="A", pattern=Bag(to_regexp=I.Native("to_regexp", lambda *x: "a"))),
-                         Bag(name="WS", pattern=Bag(to_regexp=I.Native("to_regexp", lambda *x: " ")))]
+                         Bag(name="WS", pattern=Bag(to_regexp=I.Native("to_regexp", lambda *x: " "))),
+                         Bag(name="NL", pattern=Bag(to_regexp=I.Native("to_regexp", lambda *x: "n")))]
             rules0 = [Bag(w=1, head="start", body=("A", "A"))]
 
             class CfgTok:
                 S = "start"
-                V = {"A", "WS"}
+                V = {"A", "WS", "NL"}
 
                 def __pyvc_getattr__(self, interp, nm, node):
                     if nm in ("S", "V"):
@@ -586,7 +587,7 @@ def c19_char_cfg_wiring(run):
                     return list(self.f["rules"])
 
             def regex2fsa(i2, a, k):
-                return Fsa({"a": "A", " ": "WS"}[a[0]], k["name"])
+                return Fsa({"a": "A", " ": "WS", "n": "NL"}[a[0]], k["name"])
 
             foo_holder = {}
 
@@ -594,7 +595,7 @@ def c19_char_cfg_wiring(run):
                 foo_holder["foo"] = Foo(k.get("S"))
                 return foo_holder["foo"]
 
-            selfobj = Bag(convert=I.Native("convert", lambda i2, a, k: CfgTok()), ignore_terms=(["WS"] if with_ignore else []), terminals=terminals)
+            selfobj = Bag(convert=I.Native("convert", lambda i2, a, k: CfgTok()), ignore_terms=(["WS", "NL"] if with_ignore else []), terminals=terminals)   # two ignored terminals: alternatives, not a sequence
             g = {"arsenal": arsenal, "CFG": I.Native("CFG", CFGc), "Float": "Float", "interegular_to_wfsa": I.Native("i2w", regex2fsa),
                  "NotImplementedError": "NotImplementedError"}
             it = I.Interp(I.Path([]))
@@ -623,21 +624,26 @@ def c19_char_cfg_wiring(run):
                 problems.append(f"ignore={with_ignore}: renamed rule grammar missing")
             if with_ignore:
                 ign = N("$IGNORE")
-                need = [(1, ign), (1, ign, N("WS")), (1, N("A"), ign, N(("tmp", "A")))]
+                need = [(1, ign), (1, ign, N("WS")), (1, ign, N("NL")), (1, N("A"), ign, N(("tmp", "A")))]
                 for w in need:
                     if w not in have:
                         problems.append(f"ignore wiring: missing rule {w}")
+                ign_rules = sorted((h for h in have if len(h) > 1 and h[1] == ign), key=repr)
+                if len(ign_rules) != 3:
+                    problems.append(f"ignore wiring: $IGNORE has the rules {ign_rules}, expected exactly eps | WS | NL")
                 starts = {c[0]: c[1] for c in calls}
-                if starts.get("A") != N(("tmp", "A")) or starts.get("WS") != N("WS"):
+                if starts.get("A") != N(("tmp", "A")) or starts.get("WS") != N("WS") or starts.get("NL") != N("NL"):
                     problems.append(f"ignore wiring: to_cfg start symbols {starts}")
             else:
                 starts = {c[0]: c[1] for c in calls}
-                if starts != {"A": N("A"), "WS": N("WS")}:
+                if starts != {"A": N("A"), "WS": N("WS"), "NL": N("NL")}:
                     problems.append(f"to_cfg start symbols {starts}")
             # disjointness: state names of different terminals never coincide, nor with rule nonterminals, nor with terminals
             pools = [set(c[4]) for c in calls]
-            if len(pools) == 2 and pools[0] & pools[1]:
-                disj_problems.append(f"terminals share automaton nonterminals {pools[0] & pools[1]} (bytes={to_bytes})")
+            for x_ in range(len(pools)):
+                for y_ in range(x_ + 1, len(pools)):
+                    if pools[x_] & pools[y_]:
+                        disj_problems.append(f"terminals share automaton nonterminals {pools[x_] & pools[y_]} (bytes={to_bytes})")
             foo = foo_holder["foo"]
             if foo.N & foo.V:
                 disj_problems.append(f"nonterminal/terminal name clash {foo.N & foo.V}")
